@@ -328,7 +328,11 @@ def _tvl_op(self, arg, comparison, builtins=None):
     else:
         arg_mask = False
 
-    comparison._set_mask_(Qube.or_(self._mask_, arg_mask))
+    mask = Qube.or_(self._mask_, arg_mask)
+    if np.shape(mask) and np.shape(mask) != comparison._shape_:
+        mask = np.broadcast_to(mask, comparison._shape_)
+
+    comparison._set_mask_(mask)
 
     return comparison
 
